@@ -3,6 +3,8 @@
    The documented rules (visible_spec, testonly_violation, violation, ...) are in Proof/C33_Spec.v,
    written as propositions from the property text and the documentation, not from the code. *)
 From PlzV Require Import Base.Harness Model.C33 Proof.C33_Spec Proof.C33.
+From PlzV Require Model.C33_E2E Proof.C33_E2E.
+From PlzV Require Gen.VisibilityFlow.
 
 (* For every experimental-dir configuration, every graph, every target with any number of declared
    dependencies that are all in the graph: the build step's check fails exactly when some declared
@@ -76,4 +78,67 @@ Proof.
   cbv zeta. split.
   - intros t [<-|[<-|[<-|[<-|[]]]]]; vm_compute; reflexivity.
   - vm_compute. repeat split.
+Qed.
+
+(* ---------------------------------------------------------------------------------------------
+   End to end: what lies between the BUILD files and the verdict of `plz build` besides the check.
+   The three theorems below are about definitions that gotrans TRANSLATES from the source on every
+   run (Gen/VisibilityFlow.v): the step lists of buildTarget, the special strings of
+   parseVisibility / populateTarget, the body of pyConfig.Merge. *)
+Import PlzV.Model.C33_E2E.
+
+(* Histories.  For both paths of buildTarget (local, remote), every environment (prepare-only flag,
+   filegroups, ANY incrementality predicate over plz-out, any cache), every history of invocations
+   (configuration, graph as parsed by that invocation, requested closure) sharing plz-out and every
+   initial plz-out: an invocation fails only if some target of its closure has an edge that the
+   documented rules forbid, and outside the three defect classes it fails exactly then - in
+   particular although nothing needs rebuilding. *)
+Theorem C33_history :
+  Proof.C33_E2E.history_statement VisibilityFlow.build_target_local
+  /\ Proof.C33_E2E.history_statement VisibilityFlow.build_target_remote.
+Proof. exact Proof.C33_E2E.history_exact. Qed.
+Print Assumptions C33_history.
+
+(* PUBLIC at any position.  A visibility argument that contains "PUBLIC" anywhere and otherwise
+   only well-formed labels parses, and the resulting Visibility lets every label see the target
+   (the experimental rule aside). *)
+Theorem C33_public_anywhere :
+  forall (bazel : bool) (arg : list str) (st : state) (lab : label) (dep : target),
+    In Proof.C33_E2E.PUBLIC arg ->
+    (forall v, In v arg -> v = Proof.C33_E2E.PUBLIC \/ parse_label v <> None) ->
+    ~ (experimental st (t_label dep) /\ ~ experimental st lab) ->
+    exists ls, target_visibility bazel arg = Some ls /\ (t_vis dep = ls -> can_see st lab dep = true).
+Proof. exact Proof.C33_E2E.public_anywhere. Qed.
+Print Assumptions C33_public_anywhere.
+
+(* Non-interference of the per-package defaults.  For every set of subincluded files, every
+   interleaving evs of the statements (subinclude / package(...) / build rules) of any number of
+   packages and every package p: what p hands to the graph is what it hands over when parsed alone;
+   and a package that never calls package() gets each target exactly as its own arguments say. *)
+Theorem C33_default_noninterference :
+  (forall bazel ds pname (evs : list event) (p : nat),
+     Proof.C33_E2E.outs_of p (snd (run_events bazel ds pname evs (init ds)))
+     = Proof.C33_E2E.outs_of p (snd (run_events bazel ds pname (filter (Proof.C33_E2E.of_pkg p) evs) (init ds))))
+  /\ (forall bazel ds pname (evs : list event) (p : nat),
+        (forall i d0, frozen ds i = Some d0 -> dget d0 key_vis = None /\ dget d0 key_testonly = None) ->
+        Forall Proof.C33_E2E.no_package (Proof.C33_E2E.stmts_of p evs) ->
+        Proof.C33_E2E.outs_of p (snd (run_events bazel ds pname evs (init ds)))
+        = map (Proof.C33_E2E.own_output bazel pname p) (Proof.C33_E2E.stmts_of p evs)).
+Proof. split; [exact Proof.C33_E2E.noninterference | exact Proof.C33_E2E.no_default_leak]. Qed.
+Print Assumptions C33_default_noninterference.
+
+(* Non-vacuity: the edit sequence of the history theorem (second build fails from a full plz-out),
+   PUBLIC in last position, and //lib:private staying private in every interleaving with a package
+   that subincludes the same CONFIG-touching file and sets default_visibility = ["PUBLIC"]. *)
+Example C33_e2e_nonvacuous :
+  run_history e2e_env VisibilityFlow.build_target_local Proof.C33_E2E.hx_history []
+    = [ROk; RInvisible (mkLabel [] (s "lib") (s "lib"))]
+  /\ target_visibility false [s "//other:all"; s "//third/..."; Proof.C33_E2E.PUBLIC]
+      = Some [mkLabel [] (s "other") (s "all"); mkLabel [] (s "third") (s "..."); whole_graph]
+  /\ (forall evs, Proof.C33_E2E.stmts_of 1 evs = Proof.C33_E2E.nx_lib ->
+        Proof.C33_E2E.outs_of 1 (snd (run_events false Proof.C33_E2E.nx_defs Proof.C33_E2E.nx_pname evs (init Proof.C33_E2E.nx_defs)))
+        = [ENone; ETarget (mkTarget (mkLabel [] (s "lib") (s "private")) [] false false [])]).
+Proof.
+  split; [exact Proof.C33_E2E.hx_runs|]. split; [exact Proof.C33_E2E.public_last|].
+  exact Proof.C33_E2E.nx_any_interleaving.
 Qed.
